@@ -3,7 +3,7 @@ From Coq Require Import List NArith Bool.
 Import ListNotations.
 From Mos Require Import model.Nom model.Parser spec.LayoutEquiv proofs.C08Sweep.
 From Mos Require Import model.Format Gen.FmtRules model.FormatTokens model.FormatParse model.FormatCmd spec.FormatSpec proofs.FormatSweepDefs proofs.FormatSweep
-  proofs.FormatProofs proofs.FormatTokensProofs proofs.FormatPreserved proofs.FormatCmdProofs.
+  proofs.FormatProofs proofs.FormatTokensProofs proofs.FormatPreserved proofs.FormatCmdProofs spec.FormatFlat proofs.FormatFlatProofs.
 
 (* Line assembly (join_chunks), for ALL chunk lists and ALL options: the non-whitespace characters of the output are
    exactly those of the chunk texts, in the same order -- no token or comment character is lost, invented or reordered
@@ -58,6 +58,15 @@ Theorem C12_no_comment_lost : forall o ts, wf_tokens ts = true ->
   subseq (nows (concat (all_comments ts))) (nows (format o ts)).
 Proof. exact no_comment_lost. Qed.
 Print Assumptions C12_no_comment_lost.
+
+(* The token layer at full strength on the characters: for ALL well-formed token lists and ALL options the formatted text,
+   blanks and line breaks aside, is exactly the sequence of the token list's leaf texts and comments in source order
+   (spec/FormatFlat.v, written over the AST without reference to the formatter; mnemonics and index registers in the
+   configured casing) -- no character of any token is dropped, duplicated, invented or moved, and no comment either. *)
+Theorem C12_chars_preserved : forall o ts, wf_tokens ts = true ->
+  nows (format o ts) = tnows (tokens_flat o ts).
+Proof. exact format_flat. Qed.
+Print Assumptions C12_chars_preserved.
 
 (* The formatted text parses to the same tokens: with model/Parser.v (C05) and the projection model/FormatParse.v,
    `format_source o s` = format o (parse s) is a Gallina term, tied to the real parse + format on every generated file.
